@@ -47,28 +47,28 @@ type AttachScenario struct {
 
 // AttachObs is the projection recorded after every step.
 type AttachObs struct {
-	Cnt     int64            `json:"cnt"`     // Info.ClientsConnected
-	Reg     map[string]int   `json:"reg"`     // client id -> handler whose client is registered (0 none, -1 unknown object)
-	Trie    []string         `json:"trie"`    // ids with a subscription on t/<id> in the topic index
-	Delayed []string         `json:"delayed"` // ids with a pending delayed will
-	Wire    map[string][]string `json:"wire"` // handler -> packets received so far
-	Closed  []int            `json:"closed"`  // handlers whose connection the broker has closed
-	Fin     []int            `json:"fin"`     // handlers whose EstablishConnection call has returned
-	Wills   map[string]int   `json:"wills"`   // handler -> number of publications of its will message
-	Closer  string           `json:"closer"`  // idle | called | returned
+	Cnt     int64               `json:"cnt"`     // Info.ClientsConnected
+	Reg     map[string]int      `json:"reg"`     // client id -> handler whose client is registered (0 none, -1 unknown object)
+	Trie    []string            `json:"trie"`    // ids with a subscription on t/<id> in the topic index
+	Delayed []string            `json:"delayed"` // ids with a pending delayed will
+	Wire    map[string][]string `json:"wire"`    // handler -> packets received so far
+	Closed  []int               `json:"closed"`  // handlers whose connection the broker has closed
+	Fin     []int               `json:"fin"`     // handlers whose EstablishConnection call has returned
+	Wills   map[string]int      `json:"wills"`   // handler -> number of publications of its will message
+	Closer  string              `json:"closer"`  // idle | called | returned
 }
 
 type AttachLine struct {
-	Ev   string           `json:"ev"` // cfg | step | end
-	Name string           `json:"name,omitempty"`
-	Max  int              `json:"max"`
-	Hs   []AttachHandler  `json:"hs"`
-	I    int              `json:"i"`
-	H    int              `json:"h"`
-	G    string           `json:"g"`
-	Got  string           `json:"got"`
-	Note string           `json:"note"`
-	Obs  *AttachObs       `json:"obs,omitempty"`
+	Ev   string          `json:"ev"` // cfg | step | end
+	Name string          `json:"name,omitempty"`
+	Max  int             `json:"max"`
+	Hs   []AttachHandler `json:"hs"`
+	I    int             `json:"i"`
+	H    int             `json:"h"`
+	G    string          `json:"g"`
+	Got  string          `json:"got"`
+	Note string          `json:"note"`
+	Obs  *AttachObs      `json:"obs,omitempty"`
 }
 
 type ahandler struct {
@@ -90,7 +90,7 @@ type attachRun struct {
 	sc        AttachScenario
 	srv       *mqtt.Server
 	hs        []*ahandler // index 1..N
-	byConn    sync.Map     // net.Conn -> *ahandler
+	byConn    sync.Map    // net.Conn -> *ahandler
 	closerArr chan string
 	freeRun   atomic.Bool
 	current   atomic.Int32 // the process allowed to run (0 closer, -1 nobody)
@@ -109,11 +109,11 @@ type memListener struct {
 	r *attachRun
 }
 
-func (l *memListener) Init(*slog.Logger) error      { return nil }
+func (l *memListener) Init(*slog.Logger) error     { return nil }
 func (l *memListener) Serve(listeners.EstablishFn) {}
-func (l *memListener) ID() string                   { return "mem" }
-func (l *memListener) Address() string              { return "mem" }
-func (l *memListener) Protocol() string             { return "mem" }
+func (l *memListener) ID() string                  { return "mem" }
+func (l *memListener) Address() string             { return "mem" }
+func (l *memListener) Protocol() string            { return "mem" }
 func (l *memListener) Close(closeClients listeners.CloseFn) {
 	closeClients("mem")
 	select {
